@@ -7,6 +7,9 @@ def T(qcases, tcases, qbudget=240, tbudget=1500, workers=16):
             "thorough": dict(cases=tcases, budget_s=tbudget, workers=workers)}
 
 PROPS = {
+    "C01": dict(sources=["props/C01.cpp"], jls=True, tiers=T(300, 5000),
+                assumptions=["reader buffers are exactly the size reader.h documents (1 + n*bits/8 bytes for sub-byte types)",
+                             "contiguous writes only (gaps/overlaps are C09); quick tier <= ~50k samples per case"]),
     "C16": dict(sources=["props/C16.cpp"], jls=True, enumerate=True, tiers=T(150, 6000),
                 assumptions=["'multiple of 256 bits' is asserted for power-of-two widths; for 24-bit samples only byte alignment (256/24 is not integral; the format relies on byte alignment)",
                              "definitions with all four fields <= 1000 must be accepted (they are documented as write suggestions)",
@@ -26,6 +29,10 @@ PROPS = {
 HOOK_COMMITS = []
 
 MANIFEST_TEXT = {
+    "C01": dict(
+        technique="model-based property testing: generated writer programs x generated read scripts against an in-memory sample model (bit vectors), exact-size ASan buffers",
+        level_text="Generated programs over all 15 data types, definition shapes (minimal, small random, defaults, odd), first sample ids up to +-2^60, contiguous streams cut at block edges and interleaved across 1-4 signals, reaching 1-4 summary levels; read scripts anchored at block boundaries, the last sample and sub-byte phases, interleaved with other reader calls. Length and every window compared bit-for-bit with the model. Sampling; failures shrink to a few ops and are kept as corpus files.",
+        level_note="Trusted: the sample model and pattern expander (pure functions); in-memory VFS stands in for the disk. Blocks > 1 MiB are covered by C13/C05 shapes only sparsely."),
     "C16": dict(
         technique="property-based testing through the public API (define, read back, re-define) with relational/metamorphic oracles; complete enumeration of a small grid",
         level_text="Complete for the grid {0,1,9,10,11,16,100,1000}^4 x 15 data types; boundary-biased 32-bit values (2^k, 2^k+-1, near multiples, UINT32_MAX-0..300, random) are sampled. Checked: divisibility relations, minimums, no wrap-around of rounded-up fields, idempotence via re-submission, zero == explicit per-width default, survival (SIGFPE = violation).",
